@@ -210,21 +210,61 @@ def run(idx: ProgramIndex, rep: Report, tier: str):
     sn = idx.method(L, "_shaped_noise_covar", own=True)
     probs = []
     seen_layouts = set()
-    for n in ast.walk(sn.node):
-        if isinstance(n, ast.If) and src(n.test) in ("interleaved", "not interleaved"):
-            for branch, val in ((n.body, src(n.test) == "interleaved"), (n.orelse, src(n.test) != "interleaved")):
-                for st in branch:
-                    for c in calls_in(st):
-                        if len(c.args) == 2 and (src(c.func) == "ckl_init" or (chain(c.func) or "").startswith("KroneckerProduct")):
-                            a, b = _roots(sn, c.args[0]), _roots(sn, c.args[1])
-                            # the identity over the data points is built from shape[-2]; the task factor from task noises
-                            a_data = "param:shape" in a and not ({"raw_task_noises", "task_noise_covar_factor", "raw_task_noises_constraint"} & a)
-                            b_data = "param:shape" in b and not ({"raw_task_noises", "task_noise_covar_factor", "raw_task_noises_constraint"} & b)
-                            seen_layouts.add(val)
-                            if val and not (a_data and not b_data):
-                                probs.append("interleaved noise is not eye_data (x) task_noise")
-                            if not val and not (b_data and not a_data):
-                                probs.append("non-interleaved noise is not task_noise (x) eye_data")
+    from ..symbolic import inline, walk_paths
+    ilv = "interleaved" if "interleaved" in sn.params else None
+    if ilv is None:
+        raise AnalysisError("anchor vanished: the `interleaved` parameter of _shaped_noise_covar")
+    TASK_ATTRS = {"raw_task_noises", "task_noise_covar_factor", "raw_task_noises_constraint", "task_noises"}
+
+    def data_nodes(e):
+        """sub-expressions that carry data: dtype/device metadata (keywords and `.dtype` / `.device` reads) is pruned"""
+        if isinstance(e, ast.Attribute) and e.attr in ("dtype", "device"):
+            return
+        yield e
+        for f, v in ast.iter_fields(e):
+            if isinstance(e, ast.Call) and f == "keywords":
+                for k in v:
+                    if k.arg not in ("dtype", "device"):
+                        yield from data_nodes(k.value)
+                continue
+            for ch in (v if isinstance(v, list) else [v]):
+                if isinstance(ch, ast.AST):
+                    yield from data_nodes(ch)
+
+    def side(e) -> str:
+        attrs = {x.attr for x in data_nodes(e) if isinstance(x, ast.Attribute)}
+        names = {x.id for x in data_nodes(e) if isinstance(x, ast.Name)}
+        task = bool(attrs & TASK_ATTRS)
+        data = sn.params[1] in names and not task
+        return "task" if task else ("data" if data else "?")
+
+    for path, seq in walk_paths(sn):
+        val = None
+        for s_ in path.steps:
+            if s_.kind == "assume":
+                t, neg = s_.node, False
+                while isinstance(t, ast.UnaryOp) and isinstance(t.op, ast.Not):
+                    t, neg = t.operand, not neg
+                if isinstance(t, ast.Name) and t.id == ilv:
+                    val = (s_.truth != neg)
+        for st, env in seq:
+            if not (isinstance(st, ast.Return) and st.value is not None):
+                continue
+            r = inline(st.value, env)
+            for c in (x for x in ast.walk(r) if isinstance(x, ast.Call)):
+                fn = (chain(c.func) or "").split(".")[-1]
+                if fn.startswith("KroneckerProduct") and len(c.args) == 2:
+                    sa_, sb_ = side(c.args[0]), side(c.args[1])
+                    if {sa_, sb_} != {"data", "task"}:
+                        continue
+                    if val is None:
+                        probs.append("a Kronecker noise term is built without deciding the layout (`%s` untested on the path)" % ilv)
+                        continue
+                    seen_layouts.add(val)
+                    if val and (sa_, sb_) != ("data", "task"):
+                        probs.append("interleaved noise is not eye_data (x) task_noise")
+                    if not val and (sa_, sb_) != ("task", "data"):
+                        probs.append("non-interleaved noise is not task_noise (x) eye_data")
     if seen_layouts != {True, False}:
         probs.append("the noise is not built for both layouts")
     rep.add("C09-1", "%s:_MultitaskGaussianLikelihoodBase._shaped_noise_covar[kron order]" % L.module.name, sn.where, not probs, "I_n (x) D_t when interleaved, D_t (x) I_n otherwise" if not probs else "; ".join(sorted(set(probs))), {})
